@@ -196,6 +196,16 @@ func (b *Balloon) RefreshVersion() error {
 	return nil
 }
 
+// RebuildCache reloads the in-memory hyper tree cache from the store. It has to
+// be called whenever the store was written behind the balloon's back (e.g. when
+// a snapshot is loaded into it), otherwise proofs and new digests are computed
+// from stale cached nodes.
+func (b *Balloon) RebuildCache() {
+	b.Lock()
+	defer b.Unlock()
+	b.hyperTree.RebuildCache()
+}
+
 // Add funcion inserts an event hash into the history and hyper trees, creates a snapshot
 // with these insertions results, and returns the snapshot along with certain mutations to
 // do to the persistent storage.
